@@ -98,7 +98,7 @@ def drift_note(tot, verdict, what):
 
 def run_component(pid, tier, seed, driver, trace_module, trace_cfg, mc_runs, neg_controls, sig_fn, sample_fn,
                   assumptions, impl_name, rule, driver_timeout=7200, workers_per=2, parallel=8, extra_cov=None,
-                  post_driver=None):
+                  post_driver=None, extra_forests=None):
     """The whole pattern-A check: spec-level TLC runs, drive the real object, validate the forests, write evidence."""
     import subprocess
     t0 = time.time()
@@ -122,6 +122,19 @@ def run_component(pid, tier, seed, driver, trace_module, trace_cfg, mc_runs, neg
         samples = sample_fn(files)
         if post_driver:
             post_driver(summary, v)
+    extra = None
+    if extra_forests and not v.machinery:
+        # traces recorded from real runs of the whole pipeline, judged by the same trace specification
+        files2, extra = extra_forests(out_dir, tier, v)
+        files2 = [(os.path.abspath(f), n) for f, n in files2]
+        tot2 = validate_forests(files2, trace_module, trace_cfg, v, sig_fn, workers_per=workers_per, parallel=parallel)
+        extra["trace_tree_nodes"] = tot2["nodes"]
+        extra["trace_states"] = tot2["states"]
+        extra["violating_nodes"] = len(tot2["bad"])
+        if tot2["nodes"] != sum(n for _, n in files2) and not v.machinery:
+            v.machinery_failure("real-run traces: %d nodes logged, TLC judged %d" % (sum(n for _, n in files2), tot2["nodes"]))
+        tot["states"] += tot2["states"]
+        tot["transitions"] += tot2["transitions"]
     rc = v.finish()
     cov = {
         "states": tot["states"] + sum(m["distinct"] for m in mc),
@@ -142,6 +155,8 @@ def run_component(pid, tier, seed, driver, trace_module, trace_cfg, mc_runs, neg
     }
     if extra_cov:
         cov.update(extra_cov)
+    if extra is not None:
+        cov["real_analyses"] = extra
     C.write_evidence(pid, tier, seed, "model_checking", cov, time.time() - t0, violations=len(v.unlisted),
                      assumptions=assumptions)
     print("%s: %d tree nodes, %d TLC states, %d violating, %d drift, %.1fs" % (
